@@ -7,6 +7,7 @@ import AscentVerif.Model.EnginePhysPar
 import AscentVerif.Model.EnginePhysTimeout
 import AscentVerif.Model.EnginePhysLat
 import AscentVerif.Model.EnginePhysParLat
+import AscentVerif.Model.EnginePhysLatTimeout
 import AscentVerif.Model.StdOps
 import AscentVerif.Proofs.PlanSwapBody
 namespace AscentVerif.Driver
@@ -260,6 +261,22 @@ def doRunPhysTimeout (s : EngStore) (inst : String) (k : Nat) : Option (EngStore
       | .timedOut ps => some ({ s with insts := (inst, back ps) :: s.insts.filter (·.1 != inst) }, "false")
       | .outOfFuel => some (s, "nofuel")
 
+/-- `run_timeout` through the physical-index engine model WITH lattices (`Model/EnginePhysLatTimeout.lean`): the `k`-th clock reading finds the deadline passed -/
+def doRunPhysLatTimeout (s : EngStore) (inst : String) (k : Nat) : Option (EngStore × String) := do
+    let i ← (s.insts.find? (·.1 == inst)).map (·.2)
+    let p := desugRepeated i.pd.prog
+    if p.rules.any (fun r => r.body.any fun | .agg _ => true | _ => false) then some (s, "na")
+    else
+      let ix := Phys.ixSetsOf stdVars p
+      if !PhysLat.latPlanOk stdVars p ix then some (s, "na-plan")
+      else
+        let s0 : PhysLat.XSt := (List.range i.st.length).map fun r => { rows := (relSt i.st r).rows, full := [], idxs := [] }
+        let back (ps : PhysLat.ProgStT) : Inst := { i with st := ps.st.map fun pr => { rows := pr.rows, idx := [] }, iters := ps.iters }
+        match PhysLat.runTimeout (interp (kindOf i.pd)) stdVars p ix i.pd.order (fun c => c == k) defaultFuel s0 with
+        | .done ps => some ({ s with insts := (inst, back ps) :: s.insts.filter (·.1 != inst) }, "true")
+        | .timedOut ps => some ({ s with insts := (inst, back ps) :: s.insts.filter (·.1 != inst) }, "false")
+        | .outOfFuel => some (s, "nofuel")
+
 /-- a concrete schedule: odd-numbered steps run in reverse order, worker `n % 7` performs the `n`-th insert, every third
 comparison of sampled `len_estimate`s picks the swapped copy -/
 def demoSched (seed : Nat) : PhysPar.Sched Ex Bx Gx Px Ax where
@@ -346,6 +363,7 @@ def handleEng (s : EngStore) : List Sexp → Option (EngStore × String)
     else if op == "runin" then doRun s inst
     else if op == "runpp" then do doRunPhysPar s inst (← r.asNat?)
     else if op == "runppl" then do doRunPhysParLat s inst (← r.asNat?)
+    else if op == "runtopl" then do doRunPhysLatTimeout s inst (← r.asNat?)
     else if op == "runtop" then do doRunPhysTimeout s inst (← r.asNat?)
     else if op == "runto" then do
       let i ← (s.insts.find? (·.1 == inst)).map (·.2)
